@@ -728,8 +728,8 @@ func (db *SpecDB) LoadSpecFile(path string, trusted bool) error {
 					}
 					parts := strings.Fields(text[:i])
 					rhs := strings.Fields(text[i+2:])
-					if len(parts) != 2 || len(rhs) < 3 || (rhs[0] != "call" && rhs[0] != "after") {
-						return fail("bind name type := call key n  |  after key n expr")
+					if len(parts) != 2 || len(rhs) < 3 || (rhs[0] != "call" && rhs[0] != "after" && rhs[0] != "arg") {
+						return fail("bind name type := call key n  |  after key n expr  |  arg key n i")
 					}
 					cl.Name, cl.Type = parts[0], parts[1]
 					cl.Text = rhs[1] + " " + rhs[2]
@@ -742,6 +742,11 @@ func (db *SpecDB) LoadSpecFile(path string, trusted bool) error {
 							return fail("%v", err)
 						}
 						cl.Expr = e
+					} else if rhs[0] == "arg" {
+						if len(rhs) != 4 {
+							return fail("bind name type := arg key n i")
+						}
+						cl.Exprs = []SExpr{&SIntLit{rhs[3]}}
 					} else if len(rhs) != 3 {
 						return fail("bind name type := call key n")
 					}
